@@ -354,7 +354,7 @@ def point_pair_cases(draw):
 
 @st.composite
 def merge_cases(draw):
-    spec = draw(gen.textgrid(max_tiers=5, label=gen.AB, min_tiers=1))
+    spec = draw(gen.textgrid(max_tiers=5, label=gen.AB, min_tiers=1, clean=draw(st.integers(0, 2)) > 0))  # not clean: tiers with spans of their own
     allnames = [t["name"] for t in spec["tiers"]]
     if draw(st.booleans()):
         names = None
